@@ -1,5 +1,6 @@
 """Code transform that instruments probed functions."""
 
+import __future__
 import ast
 import inspect
 import re
@@ -1468,7 +1469,7 @@ def _private_class(fn, tree):
     return None
 
 
-def _compile(filename, tree, freevars, classname=None):
+def _compile(filename, tree, freevars, classname=None, flags=0):
     if freevars:
         if sys.version_info >= (3, 8, 0):  # pragma: no cover
             kwargs = {"posonlyargs": []}
@@ -1508,7 +1509,16 @@ def _compile(filename, tree, freevars, classname=None):
         )
         ast.fix_missing_locations(tree)
 
-    return compile(ast.Module(body=[tree], type_ignores=[]), filename, "exec")
+    ast.fix_missing_locations(tree)
+    # (with the __future__ features of the module of the function, and none
+    # of this one)
+    return compile(
+        ast.Module(body=[tree], type_ignores=[]),
+        filename,
+        "exec",
+        flags=flags,
+        dont_inherit=True,
+    )
 
 
 def _standard_info():
@@ -1694,7 +1704,10 @@ def transform(fn, proceed, to_instrument=True, set_conformer=True):
     _, lineno = inspect.getsourcelines(fn.__code__)
     ast.increment_lineno(new_tree, lineno - 1)
     freevars = fn.__code__.co_freevars
-    module_code = _compile(filename, new_tree, freevars, classname)
+    future_flags = fn.__code__.co_flags & __future__.annotations.compiler_flag
+    module_code = _compile(
+        filename, new_tree, freevars, classname, flags=future_flags
+    )
 
     def _find_code(code, name):
         for const in code.co_consts:
